@@ -25,7 +25,7 @@ ASSUMPTIONS = [
     "family membership is asserted there",
     "ValueError for unknown ids / undecodable values is documented behaviour and not a network failure",
 ]
-MUST = ["failure_count_vs_wire_log", "cfc_checked_through_api", "damaged_frames_not_a_refusal", "os_error_on_send", "os_error_on_receive", "idle_error_keepalive", "tcp_connect_failure", "cfc_checked",
+MUST = ["requests_after_an_event_loop_change", "failure_count_vs_wire_log", "cfc_checked_through_api", "damaged_frames_not_a_refusal", "os_error_on_send", "os_error_on_receive", "idle_error_keepalive", "tcp_connect_failure", "cfc_checked",
         "cfc_after_rejection", "cfc_checked_overlapping_calls", "entry_points_under_fault", "settings_read_with_refused_registers", "api_calls_under_fault", "ident_payloads", "discover_payloads", "failed_exception_seen",
         "rejected_exception_seen"]
 EXHAUSTIVE = {"quick": False, "thorough": False}
@@ -269,7 +269,7 @@ def api_calls(g, fam, info_first=True):
 # (ILLEGAL DATA ADDRESS for *every* register is not a network failure: what the library does with refused blocks is
 #  C15/C16's subject, so code 2 is not part of this sweep; codes 4 and 6 must surface as RequestRejectedException)
 FAULT_MODES = ["silent", "garbage", "eof", ["recverr", errno.ECONNREFUSED], ["recverr", errno.ECONNRESET],
-               ["recverr", errno.EHOSTUNREACH], ["exc", 4], ["exc", 6], ["exc", 9], ["exc", 0], ["exc", 12], ["exc", 255], ["senderr", errno.ENETUNREACH],
+               ["recverr", errno.EHOSTUNREACH], ["exc", 4], ["exc", 2], ["exc", 6], ["exc", 9], ["exc", 0], ["exc", 12], ["exc", 255], ["senderr", errno.ENETUNREACH],
                ["senderr", errno.EACCES], ["junk", 0], ["junk", 1], ["junk", 3], ["junk", 4], ["junk", 5], ["junk", 6], ["junk", 7], ["junk", 8],
                ["connect", "refused"], ["connect", "unreach"], ["connect", "hang"]]
 
@@ -279,7 +279,11 @@ def run_c(case, part):
     fam, port, mode, ka = case["family"], case["port"], case["mode"], case["keep_alive"]
     if isinstance(mode, list) and mode[0] == "connect" and port != 502:
         return []
-    sim = models.family_sim(fam)      # all-zero (decodable) register content: this part is about network faults
+    if fam == "ESv2":       # an ES unit whose firmware keeps the eco-mode groups in Modbus registers (DSP 22, ARM 15): its setters and getters
+        sim = models.es_sim(fw=b"2225F")        # mix AA55 commands and Modbus reads / writes, which the inverter can refuse with exception frames
+        fam = "ES"
+    else:
+        sim = models.family_sim(fam)      # all-zero (decodable) register content: this part is about network faults
     calls = api_calls(g, fam, case["info_first"])
     results = []
     state = {}
@@ -326,6 +330,10 @@ def run_c(case, part):
         if o == "ok":
             continue
         is_inv = len(r) > 3 and r[3]
+        if not is_inv and o == "ValueError" and mode == ["exc", 2]:
+            # (ILLEGAL DATA ADDRESS on a single sensor / setting read is reported as ValueError 'unknown sensor/setting': documented)
+            part.count("illegal_address_reported_as_valueerror")
+            continue
         if not is_inv:
             vs.append((f"C09/{tag}/raw-exception/{o}", f"{c[0]}{c[1:]!r} under device fault {mode} (port {port}) raised {o}: {r[2]}"))
         elif no_answer and o == "RequestRejectedException":
@@ -353,6 +361,28 @@ def run_c(case, part):
     if part.evaluations % 23 == 1:
         part.sample({"part": "C", "case": case, "outcomes": [(r[0][0], r[1]) for r in results][:12]})
     return vs
+
+
+def loop_change_part(part):
+    """one inverter object used from successive asyncio.run() calls (the library supports it explicitly): the first request of the next
+    loop - answered, rejected or unanswered - fails, if at all, only with the library's own exception types, whatever the previous loop
+    left behind in the object (a kept-alive transport of a closed loop, a lock, a timer)"""
+    for transport, framing in (("udp", "rtu"), ("tcp", "tcp")):
+        for ka in (True, False):
+            for first in ("now", "drop", ["exc", 2]):
+                for second in ("now", "drop", ["exc", 4], "garbage"):
+                    for entry in ("read", "rsensor"):
+                        st1 = ["read", 700, 2] if entry == "read" else ["rsensor", 700]
+                        st2 = ["read", 701, 2] if entry == "read" else ["rsensor", 701]
+                        sc = {"transport": transport, "framing": framing, "keep_alive": ka, "T": 1, "R": 1, "after": "drop",
+                              "by_reg": {700: [first, "now"], 701: [second, second, second]},
+                              "segments": [[{"start": 0.0, "steps": [st1]}], [{"start": 0.0, "steps": [st2, st2]}], [{"start": 0.0, "steps": [st1]}]]}
+                        run = engine.run_scenario(sc, quiesce=False)
+                        part.evaluations += 1
+                        part.count("requests_after_an_event_loop_change")
+                        part.see(repr(("loopchange", transport, ka, str(first), str(second), entry)))
+                        for key, msg in check_types(transport, run, part):
+                            part.violate(key, f"keep_alive={ka}, new asyncio.run() after a request that was answered with {first}: {msg}", {"part": "L"})
 
 
 def probe_failures_part(part):
@@ -504,8 +534,8 @@ def plan(tier, seed):
             specs.append({"part": "B", "transport": transport, "ka": ka, "len": 5 if tier == "quick" else 8,
                           "R": 1})
         specs.append({"part": "Aconnect", "depth": 3 if tier == "quick" else 4})
-    for fam in ("ET", "DT", "ES"):
-        for port in ((8899, 502) if fam != "ES" else (8899,)):
+    for fam in ("ET", "DT", "ES", "ESv2"):
+        for port in ((8899, 502) if not fam.startswith("ES") else (8899,)):
             specs.append({"part": "C", "family": fam, "port": port})
     n = 4 if tier == "quick" else 16
     for i in range(n):
@@ -522,6 +552,7 @@ def run_shard(spec):
             run_a(scenario_a(spec["transport"], spec["ka"], T, R, list(script), spec["entry"]), part)
     elif p == "Aconnect":
         probe_failures_part(part)
+        loop_change_part(part)
         for R in (0, 1, 2):
             for d in range(1, spec["depth"] + 1):
                 for cs in itertools.product(["ok", "refused", "unreach", "hostunreach", "timeout", "hang"], repeat=d):
@@ -645,6 +676,9 @@ def replay(case):
         vs = run_b(case["scenario"], part)
     elif p == "Bo":
         vs = run_b_overlap(case["scenario"], part)
+    elif p == "L":
+        loop_change_part(part)
+        return [{"key": v["key"], "msg": v["msg"]} for v in part.violations]
     elif p == "P":
         probe_failures_part(part)
         return [{"key": v["key"], "msg": v["msg"]} for v in part.violations]
